@@ -65,7 +65,7 @@ def run(tier, seed):
         q = tier == "quick"
         sc2 = render_scenarios(rng, 200 if q else 4000)
         n2, s2 = xc.validate(sc2, wd, "rnd", rep, 8 if q else 14, owner=PROP)
-        pst = pc.judge(rep, 300 if q else 20000, 12, seed + 950, wd, "pg", PROG_OWNS, jobs=8 if q else 14)
+        pst = pc.judge_many(rep, 300 if q else 20000, 12, seed + 950, wd, "pg", PROG_OWNS, jobs=8 if q else 14)
         pc.cov(rep, pst)
         rep.cov.update({
             "states": res["distinct"], "transitions": res["states"], "traces_validated_against_impl": s1 + s2,
